@@ -269,12 +269,33 @@ def _fmt(v):
     return v
 
 
+def _tuplet_part():
+    """divs 6: a triplet of eighths whose last member is a chord, a triplet starting on a chord, then a half note"""
+    from gen import scores as G
+    import partitura.score as sc
+
+    def extra(p, byid):
+        for a, z in (("t0", "t2"), ("u0", "u2")):
+            p.add(sc.Tuplet(byid[a], byid[z], actual_notes=3, normal_notes=2, actual_type="eighth", normal_type="eighth"), byid[a].start.t, byid[z].end.t)
+    notes = [("t0", 0, 2, "C", None, 4, 1, 1), ("t1", 2, 2, "D", None, 4, 1, 1), ("t2", 4, 2, "E", None, 4, 1, 1), ("t2c", 4, 2, "G", None, 4, 1, 1),
+             ("u0", 6, 2, "F", None, 4, 1, 1), ("u0c", 6, 2, "A", None, 4, 1, 1), ("u1", 8, 2, "G", None, 4, 1, 1), ("u2", 10, 2, "A", None, 4, 1, 1), ("h", 12, 12, "C", None, 5, 1, 1)]
+    part = G.build_part("P1", 6, notes=notes, clefs=[(0, 1, "G", 2)], key=(2, "major"), measures=[(0, 24)], extra=extra)
+    for n in part.iter_all(sc.Note):
+        if n.id[0] in "tu":
+            n.symbolic_duration = dict(type="eighth", actual_notes=3, normal_notes=2)
+    return part
+
+
 def _export_roundtrip(b, pt, sc, d):
     from gen import scores as G
     parts = [("plain_4_4", lambda: G.build_part("P1", 4, notes=[("n0", 0, 4, "C", None, 4, 1, 1), ("n1", 4, 4, "E", -1, 4, 1, 1), ("n2", 8, 8, "G", 1, 4, 1, 1), ("n3", 16, 16, "C", None, 5, 1, 1)],
                                                 clefs=[(0, 1, "G", 2)], key=(-3, "minor"), measures=[(0, 16), (16, 32)])),
              ("dotted_and_chord", lambda: G.build_part("P1", 4, notes=[("n0", 0, 6, "C", None, 4, 1, 1), ("n1", 6, 2, "D", None, 4, 1, 1), ("n2", 8, 8, "E", None, 4, 1, 1), ("n2c", 8, 8, "G", None, 4, 1, 1),
                                                                        ("n3", 16, 12, "F", 1, 4, 1, 1), ("n4", 28, 4, "A", None, 3, 1, 1)], clefs=[(0, 1, "G", 2)], key=(1, "major"), measures=[(0, 16), (16, 32)])),
+             ("dotted_chord_and_ties", lambda: G.build_part("P1", 4, notes=[("n0", 0, 6, "C", None, 4, 1, 1), ("n0c", 0, 6, "E", None, 4, 1, 1), ("n1", 6, 2, "D", None, 4, 1, 1), ("n2", 8, 8, "F", 1, 4, 1, 1),
+                                                                              ("n3", 16, 16, "G", None, 4, 1, 1), ("n3t", 32, 4, "G", None, 4, 1, 1), ("n4", 36, 12, "B", -1, 3, 1, 1), ("n4c", 36, 12, "D", None, 4, 1, 1)],
+                                                            ties=[("n3", "n3t")], clefs=[(0, 1, "G", 2)], key=(-3, "major"), measures=[(0, 16), (16, 32), (32, 48)])),
+             ("triplets_ending_on_a_chord", _tuplet_part),
              ("two_staves", lambda: G.build_part("P1", 2, notes=[("n0", 0, 4, "C", None, 5, 1, 1), ("n1", 4, 4, "D", None, 5, 1, 1), ("b0", 0, 8, "C", None, 3, 2, 2)],
                                                  clefs=[(0, 1, "G", 2), (0, 2, "F", 4)], key=(0, "major"), measures=[(0, 8)]))]
     for name, mk in parts:
@@ -284,7 +305,7 @@ def _export_roundtrip(b, pt, sc, d):
             for n in part.iter_all(sc.GenericNote, include_subclasses=True):
                 if n.symbolic_duration is None:
                     from partitura.utils.music import estimate_symbolic_duration
-                    n.symbolic_duration = estimate_symbolic_duration(n.end.t - n.start.t, 4 if name != "two_staves" else 2)
+                    n.symbolic_duration = estimate_symbolic_duration(n.end.t - n.start.t, int(part._quarter_durations[0]))
             fn = os.path.join(d, "exp_%s.%s" % (name, ext))
             ok, _ = b.guard("export/no_exception", case, lambda: save(part, fn))
             if not ok:
